@@ -19,7 +19,8 @@ RULE = ("one operation = one complete key exchange of the real client (NewMTProt
         "decryption, DH on the 2048-bit Telegram prime, g in 2..7), followed by one encrypted request that the "
         "server opens with its own MTProto-1.0 envelope code. Client draws (nonce, new_nonce, b, padding) are "
         "fixed by substituting crypto/rand.Reader and seeding math/rand. Always: 6 honest exchanges (every g, "
-        "fixed-width and minimal integers, extra fingerprints), each field of {nonce, server_nonce, new_nonce, "
+        "fixed-width and minimal integers, extra fingerprints), 8 exchanges with the client's key fingerprint "
+        "alone / last / first / in the middle / among several / next to near-misses in the server's list, each field of {nonce, server_nonce, new_nonce, "
         "new_nonce_hash1, RSA ciphertext, g_a, g_b, g^ab} forced to exactly 0 / 1 / 2 leading zero bytes by "
         "rejection sampling of the free secrets (24 corners), all-zero nonce / server_nonce, new_nonce = 1, "
         "unbalanced and largest pq; then random honest exchanges (quick 4, thorough 2000, two RSA keys). "
